@@ -398,3 +398,54 @@ func SearchPromises(db M, cmd M, got []M) string {
 	}
 	return ""
 }
+
+// SearchSchedules: the same oracle for schedules (id pattern, tag containment, cursor, newest first, first `limit`)
+func SearchSchedules(db M, cmd M, got []M) string {
+	pat := []rune{}
+	for _, r := range str(cmd["id"]) {
+		if r == '*' {
+			r = '%'
+		}
+		pat = append(pat, r)
+	}
+	want := pairs(cmd["tags"])
+	limit := num(cmd["limit"])
+	var cursor *int64
+	if cmd["sortId"] != nil {
+		c := num(cmd["sortId"])
+		cursor = &c
+	}
+	all := rows(db, "schedules") // dumped ORDER BY sort_id
+	exp := []M{}
+	for i := len(all) - 1; i >= 0; i-- {
+		r := all[i]
+		if cursor != nil && !(num(r["sortId"]) < *cursor) {
+			continue
+		}
+		if !like(pat, []rune(str(r["id"]))) {
+			continue
+		}
+		have := pairs(r["tags"])
+		ok := true
+		for k, v := range want {
+			if hv, present := have[k]; !present || hv != v {
+				ok = false
+			}
+		}
+		if ok {
+			exp = append(exp, r)
+		}
+	}
+	if limit >= 0 && int64(len(exp)) > limit {
+		exp = exp[:limit]
+	}
+	if len(exp) != len(got) {
+		return fmt.Sprintf("schedule search %v returned %d rows, the matching set (first %d, newest first) has %d", cmd, len(got), limit, len(exp))
+	}
+	for i := range exp {
+		if str(exp[i]["id"]) != str(got[i]["id"]) {
+			return fmt.Sprintf("schedule search %v: row %d is %q, expected %q", cmd, i, str(got[i]["id"]), str(exp[i]["id"]))
+		}
+	}
+	return ""
+}
